@@ -237,14 +237,23 @@ Definition mods_clean (d : removed) (P : bytes) (sg : scope) (m : option modifie
 
 (* a call that was removed must be one the implementation may remove: it is
    not a preflight call *)
-Definition call_droppable (c : call_stm) : bool :=
-  match c_mods c with Some m => negb (m_preflight m) | None => true end.
+Definition is_nil {A} (l : list A) : bool := match l with [] => true | _ => false end.
+(* remove_calls.go removeUnusedCalls / hasSideEffects / hasOutputs: a
+   preflight call, a call without outputs, and a call of a stage or pipeline
+   that retains files are kept even when nothing refers to them *)
+Definition call_droppable (t : list callable) (c : call_stm) : bool :=
+  match c_mods c with Some m => negb (m_preflight m) | None => true end &&
+  match find_callable (c_dec_id c) t with
+  | Some (CStage s) => is_nil (st_retain s) && negb (is_nil (st_outs s))
+  | Some (CPipeline p) => is_nil (pl_retain p) && negb (is_nil (pl_outs p))
+  | None => false
+  end.
 
-Definition pipeline_clean (d : removed) (p : pipeline) : bool :=
+Definition pipeline_clean (d : removed) (t : list callable) (p : pipeline) : bool :=
   let P := pl_id p in
   let sg := scope_of_calls (pl_calls p) in
   forallb (fun c =>
-    if mem2 (rm_call d) P (c_id c) then call_droppable c
+    if mem2 (rm_call d) P (c_id c) then call_droppable t c
     else forallb (fun b => mem2 (rm_in d) (c_dec_id c) (b_id b) || exp_clean d P sg (b_exp b)) (c_bindings c)
          && mods_clean d P sg (c_mods c)) (pl_calls p) &&
   match pl_ret p with
@@ -254,7 +263,7 @@ Definition pipeline_clean (d : removed) (p : pipeline) : bool :=
   forallb (exp_clean d P sg) (pl_retain p).
 
 Definition unused_ok (d : removed) (a : ast) : bool :=
-  forallb (fun c => match c with CPipeline p => pipeline_clean d p | CStage _ => true end) (a_callables a).
+  forallb (fun c => match c with CPipeline p => pipeline_clean d (a_callables a) p | CStage _ => true end) (a_callables a).
 
 (* the removed set read off a (before, after) pair: whatever is declared
    before and no longer after *)
